@@ -49,8 +49,7 @@ def run(ctx):
     em = [o for o in r["emitted"] if o.get("k") == "case" and o["st"] not in ("unmodelled", "toobig")]
     ctx.cov["tlc_generated_cases"] = len(em)
     rng = random.Random(ctx.seed)
-    if len(em) > ctx.pick(6000, 10**9):
-        em = rng.sample(em, ctx.pick(6000, 10**9))
+    em = V.stratified_sample(em, ctx.pick(6000, 10**9), rng)
     cases = []
     for k, o in enumerate(em):
         fl = (A.FLAGBITS["UTXO_AFTER_GENESIS"] if o["genesis"] else 0) | (A.FLAGBITS["MINIMALDATA"] if o["md"] else 0) | \
